@@ -13,6 +13,10 @@
 (*      (CloneSame), inherits its history -- so Monotone, Recurrence ...   *)
 (*      are demanded of the copy ACROSS the clone point -- and neither     *)
 (*      instance is changed by an operation on the other (Independent).    *)
+(*      Fmt: rendering a detector with {:?} (StepFmt; histories of up to   *)
+(*      CloneLen operations) is an operation that changes no instance      *)
+(*      (FmtIdle, Independent) -- the following frames are smoothed from   *)
+(*      the same envelope with the same gains.                             *)
 (*  (b) rectifiers: algebraic laws on boundary sets of all 14 formats      *)
 (*      (ASSUME RectLaws).                                                 *)
 (* Also writes the stimuli for the Rust harness (IOEnv.STIM_OUT).          *)
@@ -67,7 +71,10 @@ StepClone == /\ Len(ds) = 1 /\ Len(hist) < CloneLen /\ UNCHANGED kind
              /\ ds' = Append(ds, [ds[1] EXCEPT !.s = EnvClone(@)])
              /\ hist' = Append(hist, [op |-> "clone", i |-> 1, j |-> 2])
              /\ pre' = Pre(1, DZero)
-Next == StepIn \/ StepSetA \/ StepSetR \/ StepClone
+\* {:?} of an instance (derived Debug of Detector): an operation of the object that changes nothing
+StepFmt == /\ Len(hist) < CloneLen /\ UNCHANGED << kind, ds >>
+           /\ \E i \in 1..Len(ds) : hist' = Append(hist, [op |-> "fmt", i |-> i]) /\ pre' = Pre(i, DZero)
+Next == StepIn \/ StepSetA \/ StepSetR \/ StepClone \/ StepFmt
 Spec == Init /\ [][Next]_vars
 
 LastOp == IF Len(hist) > 0 THEN hist[Len(hist)].op ELSE "none"
@@ -97,6 +104,8 @@ Monotone ==
       /\ DLe(DAbs(e2), DAbs(e1)) /\ (DSign(e1) # 0 => DLt(DAbs(e2), DAbs(e1)))
 \* a setter changes no output already produced and not the envelope: only subsequent frames
 SetLater == LastOp \in {"setA", "setR"} => Me.s.env[1] = pre.env /\ Len(Me.outs) = pre.nouts
+\* rendering changes neither the envelope nor the outputs produced (nor, by Independent, any other instance)
+FmtIdle == LastOp = "fmt" => Me.s.env[1] = pre.env /\ Len(Me.outs) = pre.nouts
 \* rectified values have the rectifier's sign
 DetSign == LastIsIn => (kind = "neg" => DSign(LastD) <= 0) /\ (kind # "neg" => DSign(LastD) >= 0)
 \* a clone IS the original at that moment (envelope, gains, what it has seen): it answers every next input alike
@@ -195,6 +204,8 @@ ExecS(h, a0, r0, sl, src) ==
           [] o.op = "clone" -> [ev |-> "env_clone", a |-> [i |-> o.i, j |-> o.j]]
           [] o.op = "mv"    -> [ev |-> "env_move", a |-> [i |-> o.i]]
           [] o.op = "flip"  -> [ev |-> "env_flip", a |-> [i |-> o.i]]
+          \* {:?} of the detector (executed when the instance is a bare detector at that moment: the adaptor has no Debug)
+          [] o.op = "fmt"   -> [ev |-> "env_fmt", a |-> [i |-> IOf(o)]]
   IN << [ev |-> "reset", comp |-> "env",
          cfg |-> [fmt |-> fmt, ch |-> ch, det |-> det,
                   n |-> IF det = "rms" THEN 1 + ((w \div 1152) % 2) ELSE 0,
@@ -231,7 +242,8 @@ CloneA ==
   UNION { { LET ka == IF (k1 + k2 + p) % 2 = 0 THEN 2 ELSE -2
                 kb == IF ka = 2 THEN -1 ELSE 1
             IN ExecS(CloneAt(<< InI(0, k1), InI(0, k2) >>, p)
-                       \o << InI(1, ka), InI(0, kb), InI(1, kb), [op |-> "mv", i |-> (k1 + p) % 2], InI(0, ka), InI(1, ka) >>,
+                       \o << InI(1, ka), [op |-> "fmt", i |-> 1], InI(0, kb), InI(1, kb), [op |-> "mv", i |-> (k1 + p) % 2],
+                              [op |-> "fmt", i |-> 0], InI(0, ka), InI(1, ka) >>,
                      a0, r0, -1, "gen")
             : k1 \in K \ {0}, k2 \in {-1, 2}, p \in 0..2 } : a0 \in T, r0 \in T }
 CloneB ==
@@ -241,11 +253,17 @@ CloneB ==
                   a0, r0, -1, "gen")
             : k1 \in {-2, 1}, p \in 0..2, o \in {"setA", "setR"}, t \in {0, 2}, x \in {0, 1} } : a0 \in T, r0 \in T }
 CloneStim == CloneA \cup CloneB
-Stimuli == RectStim \cup EnvStim \cup SetStim \cup TailStim \cup CloneStim
+\* {:?} between two frames and after a setter, from every initial gain pair (format, detection -- RMS detection renders
+\* the Rms with its window --, channels, constructor spread by the hash as everywhere)
+Fmt0 == [op |-> "fmt", i |-> 0]
+FmtStim ==
+  UNION { { Exec(<< In(k1), Fmt0, In(k2), [op |-> o, t |-> 1], Fmt0, In(k1) >>, a0, r0, -1)
+            : k1 \in {-2, 1}, k2 \in {-1, 2}, o \in {"setA", "setR"} } : a0 \in T, r0 \in T }
+Stimuli == RectStim \cup EnvStim \cup SetStim \cup TailStim \cup CloneStim \cup FmtStim
 WriteStimuli ==
   IF "STIM_OUT" \in DOMAIN IOEnv
     THEN /\ ndJsonSerialize(IOEnv.STIM_OUT, SetToSeq(Stimuli))
-         /\ PrintT(<< "STIMULI", Cardinality(RectStim), Cardinality(EnvStim), Cardinality(SetStim), Cardinality(TailStim), Cardinality(CloneStim) >>)
+         /\ PrintT(<< "STIMULI", Cardinality(RectStim), Cardinality(EnvStim), Cardinality(SetStim), Cardinality(TailStim), Cardinality(CloneStim), Cardinality(FmtStim) >>)
     ELSE TRUE
 ASSUME WriteStimuli
 =============================================================================
